@@ -36,3 +36,14 @@ package scenario
 //@     decreases len(victim.Tasks) - rangeindex
 //@   ensures [sameMap] result == s.victims && s.victims == old(s.victims)
 //@ end
+
+// ---- added by helper "solver" -----------------------------------------------------------------------------
+// The scenario skeleton is written by NewBaseScenario / NewByNodeScenario only (constructors); the lists of
+// potential victims grow through AddPotentialVictimsTasks (scenario builder), which the by-pod solver never calls.
+//@ stable ByNodeScenario.BaseScenario
+//@ stable BaseScenario.session
+//@ stable BaseScenario.preemptor
+//@ stable BaseScenario.pendingTasks
+//@ stable BaseScenario.recordedVictimsJobs
+//@ stable BaseScenario.recordedVictimsTasks
+//@ stable BaseScenario.potentialVictimsTasks
